@@ -1198,7 +1198,7 @@ def fragment_data_dict(dd, chunk_size):
         chrname, position = '_'.join(k.split('_')[:-1]), k.split('_')[-1]
         # Track additional_info
         if not '.' in position:
-            add_info = None
+            add_info = ''
         else:
             position, add_info = position.split('.',1)
         ndd[chrname].append((int(position), add_info))
